@@ -61,6 +61,13 @@ def run(ctx):
             if l.startswith("< "):
                 key = l.split()[1] if k == "validator" else k
                 outs[key] = outs.get(key, 0) + 1
+    # an announcement can only be remembered if it reaches the job memory: the reader of a pool connection (the relay direction, or
+    # the autoread of a parked pool) is stopped and started at every destination change, and a notify that arrives at that instant
+    # must not be consumed and dropped
+    conn_ops = L.conn_reads(ctx, "c19:announcement-lost-while-its-read-was-being-stopped",
+                            "a job announcement taken off the pool connection by a Read that was being stopped never reaches the job memory: it is not known when a share names it and is not the job re-announced after a switch",
+                            "an announced job is known until it is displaced or expires", "C19")
+    ctx.coverage["connection_read_ops_compared"] = conn_ops
     ctx.coverage.update({
         "evaluations": len(allcases),
         "distinct_nontrivial": L.distinct_count(allcases, nontrivial),
@@ -74,4 +81,7 @@ def run(ctx):
 
 
 def replay(ctx, path):
+    import json
+    if json.load(open(path)).get("signature", "").startswith("c19:announcement-lost"):
+        return L.generic_replay(ctx, path, "proxy", "TestVerifC14$", "c14", "c14.impl.txt")
     return L.generic_replay(ctx, path, HDIR, TEST, "c19", TRANSCRIPT)
